@@ -124,8 +124,8 @@ fn panic_class(msg: &str, data: &[u8]) -> &'static str {
 /// the RFC 3597 `\#` marker) can possibly be formed from its octets. The test
 /// over-approximates what the tokenizer could see: backslashes are dropped,
 /// `\DDD` is decoded, and mnemonics are searched as substrings.
-const SUPPORTED: [&str; 20] = ["A", "NS", "CNAME", "SOA", "PTR", "HINFO", "MX", "TXT", "SRV", "NAPTR",
-    "MB", "MD", "MF", "MG", "MR", "DNAME", "MINFO", "RP", "SSHFP", "TLSA"];
+const SUPPORTED: [&str; 21] = ["A", "NS", "CNAME", "SOA", "PTR", "HINFO", "MX", "TXT", "SRV", "NAPTR",
+    "MB", "MD", "MF", "MG", "MR", "DNAME", "MINFO", "RP", "SSHFP", "TLSA", "OPENPGPKEY"];
 
 struct Elig { unsupported: Vec<Vec<u8>> }
 impl Elig {
@@ -150,9 +150,11 @@ impl Elig {
                 } else { i += 1; }
             } else { flat.push(if b < 128 { b.to_ascii_lowercase() } else { b'?' }); i += 1; }
         }
-        let has = |pat: &[u8]| flat.windows(pat.len()).any(|w| w == pat);
-        if has(b"type") { return false; }
-        for m in &self.unsupported { if has(m) { return false; } }
+        // tokens of the flattened text: split at every delimiter octet and at quotes
+        for tok in flat.split(|b| matches!(*b, b' ' | b'\t' | b'\r' | b'\n' | b'(' | b')' | b';' | b'"')) {
+            if tok.len() > 4 && &tok[..4] == b"type" { return false; }
+            if self.unsupported.iter().any(|m| &m[..] == tok) { return false; }
+        }
         true
     }
 }
@@ -452,6 +454,26 @@ fn hex_words(r: &mut Rng) -> Vec<Field> {
     cuts.windows(2).map(|w| Field::Word(digits[w[0]..w[1]].to_string())).collect()
 }
 
+/// Base 64 text of 1..12 octets, cut into one to three tokens
+fn b64_words(r: &mut Rng) -> Vec<Field> {
+    const AL: &[u8] = b"ABCDEFGHIJKLMNOPQRSTUVWXYZabcdefghijklmnopqrstuvwxyz0123456789+/";
+    let n = 1 + r.below(12) as usize;
+    let data = r.bytes(n);
+    let mut t = String::new();
+    for ch in data.chunks(3) {
+        let b = [ch[0], *ch.get(1).unwrap_or(&0), *ch.get(2).unwrap_or(&0)];
+        t.push(AL[(b[0] >> 2) as usize] as char);
+        t.push(AL[(((b[0] & 3) << 4) | (b[1] >> 4)) as usize] as char);
+        if ch.len() > 1 { t.push(AL[(((b[1] & 15) << 2) | (b[2] >> 6)) as usize] as char); } else { t.push('='); }
+        if ch.len() > 2 { t.push(AL[(b[2] & 63) as usize] as char); } else { t.push('='); }
+    }
+    let total = t.len();
+    let mut cuts = vec![0usize, total];
+    for _ in 0..r.below(3) { cuts.push(1 + r.below(total as u64 - 1) as usize); }
+    cuts.sort(); cuts.dedup();
+    cuts.windows(2).map(|w| Field::Word(t[w[0]..w[1]].to_string())).collect()
+}
+
 fn gen_zone(r: &mut Rng) -> Vec<Item> { gen_zone_of(r, false) }
 
 fn gen_zone_of(r: &mut Rng, model_types: bool) -> Vec<Item> {
@@ -471,7 +493,7 @@ fn gen_zone_of(r: &mut Rng, model_types: bool) -> Vec<Item> {
         let ttl = *r.pick(&[0u32, 60, 300, 300, 3600, 3600, 86400, 2147483647]);
         let plain = r.chance(3, 4);
         let nm = |r: &mut Rng| Field::Name(if r.chance(1, 6) { vec![] } else if r.chance(1, 5) { origin.clone() } else { gen_name(r, &origin, plain) });
-        let pickt = if model_types { *r.pick(&[0u64, 2, 3, 4, 5, 6, 7, 7, 8, 9, 10, 12, 13, 13, 14, 15, 16, 16, 17]) } else { r.below(18) };
+        let pickt = if model_types { *r.pick(&[0u64, 2, 3, 4, 5, 6, 7, 7, 8, 9, 10, 12, 13, 13, 14, 15, 16, 16, 17, 18, 18]) } else { r.below(19) };
         let (rtype, fields): (&'static str, Vec<Field>) = match pickt {
             0 => ("A", vec![Field::Word(format!("{}.{}.{}.{}", r.below(256), r.below(256), r.below(256), r.below(256)))]),
             1 => ("AAAA", vec![Field::Word(r.pick(&["2001:db8::1", "::", "::1", "fe80::1:2:3:4", "1:2:3:4:5:6:7:8", "::ffff:192.0.2.1"]).to_string())]),
@@ -490,7 +512,8 @@ fn gen_zone_of(r: &mut Rng, model_types: bool) -> Vec<Item> {
             14 => ("MINFO", vec![nm(r), nm(r)]),
             15 => ("RP", vec![nm(r), nm(r)]),
             16 => { let mut f = vec![Field::Int(r.below(256)), Field::Int(r.below(256)), Field::Int(r.below(256))]; f.extend(hex_words(r)); ("TLSA", f) }
-            _ => (*r.pick(&["MB", "MD", "MF", "MG", "MR"]), vec![nm(r)]),
+            17 => (*r.pick(&["MB", "MD", "MF", "MG", "MR"]), vec![nm(r)]),
+            _ => ("OPENPGPKEY", b64_words(r)),
         };
         items.push(Item::Rec(Rec { owner: owner.clone(), ttl, rtype, fields }));
     }
@@ -556,6 +579,8 @@ fn main() {
         b"a. 1 IN TYPE999 \\# 2 0102\n", b"a. 1 IN TYPE999 \\# 0\n", b"a. 1 IN A \\# 4 01020304\n",
         b"$\xC0\x80 x\n", b"$INCLUDE \xC0\x80\n",
         b"a. 1 IN DS 1 1 1 \xC0\xA0\n", b"a. 1 IN SSHFP 1 1 \xC0\xA0\n", b"a. 1 IN SSHFP 1 1 ab c\n", b"a. 1 IN SSHFP 1 1 a (\n b ) ; x\n",
+        b"a. 1 IN OPENPGPKEY AQID\n", b"a. 1 IN OPENPGPKEY AQ== x\n", b"a. 1 IN OPENPGPKEY AQI\n", b"a. 1 IN OPENPGPKEY A=ID\n", b"a. 1 IN OPENPGPKEY AQ (\n ID ) \n",
+        b"a. 1 IN OPENPGPKEY\n", b"a. 1 IN OPENPGPKEY A\\081ID BA\\=\\=\n", b"a. 1 IN OPENPGPKEY A\xC3\xA9ID\n",
         b"a. 1 IN SSHFP 1 1\n", b"a. 1 IN SSHFP 256 1 ab\n", b"a. 1 IN SSHFP +1 01 \"ab\" \\097b\n", b"a. 1 IN TLSA 1 1 1 abg\n", b"a. 1 IN TLSA 1 1 1 ab",
         b"$ORIGIN x.\na 1 IN RP @ b\n 1 IN MINFO a. @\n 1 IN DNAME a\n 1 IN MR .\n", b"a. 1 IN MX 65535 b.\n", b"a. 1 IN MX 65536 b.\n", b"a. 1 IN MX 655350 b.\n",
         b"a. +1 IN A 1.2.3.4\n", b"a. 1 CLASS1 TYPE1 1.2.3.4\n", b"a. 1 IN A 01.2.3.4\n", b"a. 1 IN A 1.2.3\n",
